@@ -59,7 +59,7 @@ def gen_plan(run_seed, tier, index):
     dn = r.choice([None, None] + model['namespaces'] + ['ROOT/CIMV2'])
     n = r.randint(4, 20)
     ops = opgen.gen_program(stream(run_seed, 'ops'), model,
-                            dn or 'root/cimv2', n)
+                            dn or 'root/cimv2', n, switch_default_ns=True)
     return {'check': ID, 'model_seed': mseed, 'default_ns': dn, 'ops': ops,
             'ids_seed': stream(run_seed, 'ids').getrandbits(32)}
 
@@ -211,6 +211,31 @@ def outcome(op, res, host):
     return ('exc', type(e).__name__)
 
 
+def _safe_copy(x):
+    """Deep copy that tolerates tz-aware datetimes whose tzinfo cannot be
+    deep-copied (pywbem's MinutesFromUTC): those are immutable anyway."""
+    import datetime as _dt
+    if isinstance(x, (_dt.datetime, _dt.timedelta)):
+        return x
+    if isinstance(x, list):
+        return [_safe_copy(y) for y in x]
+    if isinstance(x, tuple):
+        return tuple(_safe_copy(y) for y in x)
+    if isinstance(x, dict):
+        return {k: _safe_copy(v) for k, v in x.items()}
+    return copy.deepcopy(x)
+
+
+def _as_cim(v):
+    """Python datetime/timedelta values are CIM datetimes."""
+    import datetime as _dt
+    if isinstance(v, (_dt.datetime, _dt.timedelta)):
+        return pywbem.CIMDateTime(v)
+    if isinstance(v, list):
+        return [_as_cim(x) for x in v]
+    return v
+
+
 def clean_params(params):
     out = {}
     for k, v in params.items():
@@ -261,7 +286,7 @@ def execute(plan):
 
         def rec_m(methodname, objectname, Params=None, **params):
             d_calls.append(('method', methodname, copy.deepcopy(objectname),
-                            copy.deepcopy(Params), copy.deepcopy(params)))
+                            _safe_copy(Params), _safe_copy(params)))
             return orig_m(methodname, objectname, Params, **params)
         conn_d._imethodcall = rec_i
         conn_d._methodcall = rec_m
@@ -527,6 +552,7 @@ def compare_request(sw, dc, conn_d, cr_blind=False):
         return 'method parameter names %s vs %s' % (
             [n for n, _ in dec], [n for n, _ in sup])
     for (n, a), (_, b) in zip(dec, sup):
+        b = _as_cim(b)
         if b is None:
             if a is not None:
                 return 'method parameter %s: %r vs None' % (n, a)
